@@ -49,8 +49,8 @@ ASSUMPTIONS = [
 ]
 
 DEN = 16
-COMBOS_DY = (("float64", "float64"), ("complex128", "float64"), ("complex64", "float32"))
-COMBOS_FL = (("float64", "float64"), ("complex128", "float64"))
+COMBOS_DY = (("float64", "float64"), ("complex128", "float64"), ("complex64", "float32"), ("complex64", "float64"))
+COMBOS_FL = (("float64", "float64"), ("complex128", "float64"), ("complex64", "float64"))
 FLOAT_MARGIN = Fraction(1, 1000)
 
 
